@@ -23,7 +23,7 @@ def run_hist(kind, r_ms, c_ms, events, seed=0):
     from xknx.devices import BinarySensor, Switch
     from xknx.dpt import DPTBinary
     from xknx.telegram import GroupAddress, IndividualAddress, Telegram, TelegramDirection
-    from xknx.telegram.apci import GroupValueWrite
+    from xknx.telegram.apci import GroupValueResponse, GroupValueWrite
 
     ev = []
     with virtual_world(seed) as loop:
@@ -53,15 +53,32 @@ def run_hist(kind, r_ms, c_ms, events, seed=0):
                                      "st": st(dev), "cnt": cnt(dev), "t": now()})
 
             dev.process_group_write = pgw
+            if kind == "bs" and not c_ms:          # a binary sensor with a reset time: every third telegram is the answer to a read - an 'on' like any other
+                orig_r = dev.process_group_response
+
+                def pgr(telegram):
+                    mark = len(ev)
+                    try:
+                        orig_r(telegram)
+                    finally:
+                        ev.insert(mark, {"ev": "tg", "v": int(telegram.payload.value.value), "own": 0, "st": st(dev), "cnt": cnt(dev), "t": now()})
+
+                dev.process_group_response = pgr
             xknx.devices.async_add(dev)
             await start_xknx(xknx)
-            for gap, v in events:
+            lastv = None
+            for i_, (gap, v) in enumerate(events):
                 if gap:
                     await asyncio.sleep(gap / 1000)
                     if dev.state is not None:
                         ev.append({"ev": "rep", "st": st(dev), "cnt": cnt(dev), "t": now()})     # sample before the next telegram
+                # an answer that repeats 'on' after the timed reset has passed is left out: whether a read answer that tells nothing new
+                # switches the sensor on again is the library's choice, not something the property states
+                resp = kind == "bs" and not c_ms and i_ % 3 == 2 and not (v == 1 and lastv == 1 and dev.state is False)
                 xknx.telegrams.put_nowait(Telegram(GroupAddress("1/1/1"), direction=TelegramDirection.INCOMING,
-                                                   payload=GroupValueWrite(DPTBinary(v)), source_address=IndividualAddress("1.1.7")))
+                                                   payload=(GroupValueResponse if resp else GroupValueWrite)(DPTBinary(v)),
+                                                   source_address=IndividualAddress("1.1.7")))
+                lastv = v
                 await asyncio.sleep(0.0005)
             big = max(r_ms, c_ms)
             for d in (big - 50, 40, 20, big):      # samples around the expiry after the last telegram
